@@ -333,8 +333,12 @@ def judge_pair(ctx, r, root, base, A, B, renames, deleted, added, desc, first, f
     nmust = sum(1 for v, _ in verdicts if v == MUST)
     nnot = sum(1 for v, _ in verdicts if v == MUSTNOT)
     nontrivial = nmust >= 1 and nnot >= 1 and (ngroups >= 2 or shifted)
-    with_glob = r.random() < 0.5
+    with_glob = r.random() < 0.4
     args = ["**"] if with_glob else []
+    if not with_glob and r.random() < 0.3 and statesB:
+        # a positional glob that matches only one file: files named by the diff stay in scope whatever the globs say,
+        # and blocks of the matching file are listed in addition (their flags still follow the diff)
+        args = [r.choice(sorted(statesB))]
     lst = run.run(ctx.bin("rel"), ["list"] + args, root, stdin=diff, env={}, cpu_limit=30)
     res = run.run(ctx.bin("rel"), args, root, stdin=diff, env={}, cpu_limit=30)
     key = h([diff.decode("utf-8", "replace"), args])
